@@ -17,7 +17,9 @@ META = {
               "line count fixed per shard and every character and line length symbolic == the specification text; (c) two adjacent documented commands of every pair of "
               "kinds: real walker -> aggregator -> *.process -> RSTWriter, whole page == spec_render by one equality (each doc line once, in order, inside its own directive); "
               "(d) z3 regex queries on the lexer ATN: the canonical doccomment language (any number/length of lines) is exactly one Docstring/Module_docstring token; "
-              "(e) z3 bit-vector model of the codec the real Documenter passes to the runtime: every code point round-trips.",
+              "(e) z3 bit-vector model of the codec the real Documenter passes to the runtime: every code point round-trips. "
+              "Also: text on the opening line ('#[[[ text') of blocks indented wider than the opening delimiter (found D18), long lines, deep indentation; thorough tier: every regex query "
+              "re-decided by z3 4.8.12 and cvc5 1.4.0.",
   assumptions=["doc line texts: arbitrary code points except LF, CR and the substring ']]' (the canonical form)"] + STEP_ASSUME[2:],
   outside=["encoding of the output file (open(file,'w') uses the locale)", "doccomments containing CR or ']]'", "leaderless indented blocks"],
   trusted=TRUSTED_CH + TRUSTED_E2),
@@ -33,7 +35,8 @@ META = {
  "C03": dict(
   explanation="Inductive step on the definition stack (depth <= 3, arbitrary kwargs flag per frame) with a FREE regex shim: re.sub(p,'',s) is the opaque term <p|s>, so the claim "
               "holds for every strip pattern at once; the shim log shows one call per parameter with the pattern of this kind and never on the name; trigger string and doc text "
-              "symbolic (containment decided by z3). Plus signature rendering of function/macro entries with 0..n symbolic parameters == spec.",
+              "symbolic (containment decided by z3). Plus signature rendering of function/macro entries with 0..n symbolic parameters == spec, "
+              "incl. parameters of the marker's own length (a parameter spelled '**kwargs').",
   assumptions=STEP_ASSUME + ["what a concrete regex matches is Python's re (outside)"], outside=["if()/foreach() blocks are ordinary commands to CMinx (covered as 'other' steps)"],
   trusted=TRUSTED_CH),
  "C04": dict(
@@ -42,7 +45,7 @@ META = {
               "(c,f) letter case of the command name and token line/column are symbolic in the inductive-step shards and the oracle ignores them. "
               "(d,e) relational CrossHair harnesses: the same block re-indented with other space/tab characters, or with CRLF line ends, renders to the same page "
               "(CRLF: same after deleting CR and whitespace-only lines).",
-  assumptions=["opening line of the doccomment holds only '#[[['"] + STEP_ASSUME[:1], outside=["bracket level > D", "CRLF inside quoted arguments", "doccomments containing ']]'"],
+  assumptions=["opening line of the doccomment holds only '#[[[' except in the two opening-line shards (concrete text there)"] + STEP_ASSUME[:1], outside=["bracket level > D", "CRLF inside quoted arguments", "doccomments containing ']]'"],
   trusted=TRUSTED_CH + TRUSTED_E2),
  "C05": dict(
   explanation="(a) decode: the codec the real Documenter hands to the runtime round-trips every code point (z3 bit-vector model, replayed on the real constructor). "
@@ -66,7 +69,8 @@ META = {
  "C07": dict(
   explanation="Nesting lemma: every entry kind (incl. a class with constructor, methods, attribute, inner class) with symbolic names/arguments and doc lines of shard-constant reST shapes "
               "(plain, blank, field, bullet, indented continuation, nested directive, literal marker) is rendered by the real *.process + RSTWriter to exactly spec_render, whose nesting "
-              "(options under the heading, blank line, content at 3*(d+1) spaces, nested directives one level deeper, entries as column-0 siblings) is evident from its construction. "
+              "(options under the heading, blank line, content at 3*(d+1) spaces, nested directives one level deeper, entries as column-0 siblings) is evident from its construction; the macro flag of test/section entries is symbolic; C07.c: values and help "
+              "texts holding the escape sequences backslash-n, backslash-t, double backslash reach the page as written, on one line. "
               "C07.b validates that lemma (not a solver verdict): 490 pages rendered by the real code are parsed by the real docutils into title / module / entry siblings without error-level messages.",
   assumptions=["names/arguments contain no line breaks (the property's precondition)"],
   outside=["that this indentation lemma implies a clean docutils parse for every valid reST body is argued, not solved; docutils itself is not executed symbolically"],
@@ -83,7 +87,8 @@ META = {
   assumptions=STEP_ASSUME, outside=[], trusted=TRUSTED_CH),
  "C10": dict(
   explanation="Documented set()/option() through the real aggregator and renderer with 0..3 values of shard-constant token class (identifier, unquoted, unquoted ending in an escaped quote, "
-              "quoted, quoted with escaped quote, empty string, bracket, variable reference) and symbolic text: page == spec (type by count, default as written, quotes removed only from a single quoted value, list joined by blanks; option: help, default or OFF, bool, note).",
+              "quoted, quoted with escaped quote, empty string, bracket, variable reference) and symbolic text: page == spec (type by count, default as written, quotes removed only from a single quoted value, list joined by blanks; option: help, default or OFF, bool, note); values with escape sequences; the same name declared twice; "
+              "C10.b rendering with doccomments that carry a ':type:' field of their own: the generated type/default/help fields are all there.",
   assumptions=["value texts conform to their token class"], outside=["the text shown as default of an UNSET variable is not prescribed (prefix/suffix comparison there)"], trusted=TRUSTED_CH),
  "C11": dict(
   explanation="ct_add_test / ct_add_section / add_test through the real aggregator and renderer; argument pattern (position of NAME, presence/position of EXPECTFAIL, number of other arguments) "
@@ -99,14 +104,17 @@ META = {
  "C13": dict(
   explanation="Real cminx.document / document_single_file on a virtual file system against the oracle spec_tree: set of written paths == pages of processed files + one index.rst per processed "
               "directory, each once, page text = what the Documenter stub yields for that file. Symbolic: matcher verdict per entry and for the input path, listing order per directory, "
-              "(presence), recursive / auto-exclusion as shards, output placement, prefix.",
+              "(presence), recursive / auto-exclusion as shards, output placement, prefix. Names incl. inner dots, a file named 'cmake' (found D16), names differing in case, "
+              "an output directory nested in the tree next to a sibling with its name as prefix; the input path as a symbolic link; deep and wide trees.",
   assumptions=["OS contract: a finite tree that does not change during the run, listed in arbitrary order; no races, no I/O errors; symbolic links only in the shards that say so (the input path is a link to the tree; one link to a sibling directory inside the tree, followed or not)",
                "with auto-exclusion on, the input directory holds a non-excluded lower-case .cmake file and mixed-case extensions sit next to one (the property's quantifier)"],
   outside=["file and directory names are concrete (menus incl. dots, dashes, mixed case, 3 levels); symbolic names through posixpath do not terminate"], trusted=TRUSTED_CH),
  "C14": dict(
   explanation="Same harness family: every recorded index.rst (real RSTWriter/Directive output) has a toctree listing exactly the processed cmake files of its directory and <sub>/index.rst for "
               "exactly its processed subdirectories, each once; every toctree entry has a recorded target; titles = prefix / prefix+sep+relative directory (also for separators other than '.'); "
-              "closure mode: for sub-directories holding only mixed-case *.CMAKE files every toctree entry still has a target and every page is reachable.",
+              "closure mode: for sub-directories holding only mixed-case *.CMAKE files every toctree entry still has a target and every page is reachable; "
+              "input path = symbolic link (titles name the path as given); a symbolic link to a sibling directory that is not followed is not listed (found D17); "
+              "known finding D15 (index.cmake) isolated on skeleton S7.",
   assumptions=["as C13"], outside=["as C13"], trusted=TRUSTED_CH),
  "C15": dict(
   explanation="Same harness family with the matcher a fully symbolic predicate over the paths CMinx asks about: an entry is processed iff the predicate is false for it and its ancestors; "
@@ -114,7 +122,8 @@ META = {
   assumptions=["as C13"], outside=["that pathspec's GitWildMatchPattern implements gitignore semantics for the absolute paths CMinx passes (third-party regex translation, trusted)"], trusted=TRUSTED_CH),
  "C16": dict(
   explanation="CrossHair through the real cminx.main -> argparse -> confuse -> config_template -> dict_to_settings, one shard per option of the input/output/rst sections (taken from the real template): "
-              "for every subset of sources that set the option and symbolic values, the value in effect == highest-priority source, else the packaged default; exclude filters = union; "
+              "for every subset of sources that set the option and symbolic values, the value in effect == highest-priority source, else the packaged default (a command-line value may be the empty string); exclude filters = union as a set (a file may give the empty list); "
+              "long option spellings; several input paths in one run are each documented under the same values; "
               "output directory resolution incl. relative_to_config (set in either file), with and without a -s file, against the working directory at the time main() runs; wrong type rejected.",
   assumptions=["YAML syntax is outside (loader stubbed with symbolic dictionaries)", "logging.config replaced by {'version': 1}", "CLI values do not start with '-' (argparse convention)"],
   outside=["the platform rule locating the per-user file"], trusted=TRUSTED_CH + ["confuse, argparse executed symbolically as they are"]),
